@@ -31,7 +31,7 @@ def tstr(tick):
 
 def write_input(path, i, inp):
     ids = [100 * i + j for j in range(1, inp["n"] + 1)]
-    feats = ["deform", "time", "frame"] + sorted(inp["feats"])
+    feats = ["deform", "time", "frame", "index_online"] + sorted(inp["feats"])
     gen.write_rtdc(path, ids, feats=feats,
                    meta={"experiment": {"date": DATE[inp["date"]],
                                         "time": tstr(inp["tick"]),
@@ -92,7 +92,8 @@ def _join(job):
                                                              ticks)))
                 return {"inputs": inputs}, out
             order = [list(o) for o in case["orders"]][allowed.index(got)]
-            need = set(case["feats"]) | {"deform", "time", "frame"}
+            need = set(case["feats"]) | {"deform", "time", "frame",
+                                         "index_online"}
             have = set(ds.features_innate)
             if not need <= have:
                 out.append(("a feature available in every input is missing "
@@ -101,7 +102,7 @@ def _join(job):
             if extra:
                 out.append(("joined file has a feature that is not in every "
                             "input", str(sorted(extra))))
-            for f in sorted(need & have - {"time", "frame"}):
+            for f in sorted(need & have - {"time", "frame", "index_online"}):
                 if gen.decode_scalar(f, ds[f][:]) != got:
                     out.append(("feature values differ from the "
                                 "concatenation", f))
@@ -123,6 +124,27 @@ def _join(job):
             if [int(x) for x in ds["frame"][:]] != wf:
                 out.append(("frame is not continued by the acquisition "
                             "offsets", ""))
+            # the online index keeps every source's values up to one offset
+            # per source and never runs backwards between sources
+            if "index_online" in have:
+                ionl = [int(x) for x in ds["index_online"][:]]
+                pos, prev_last = 0, None
+                for i in order:
+                    inp = inputs[i - 1]
+                    ids = [100 * i + j for j in range(1, inp["n"] + 1)]
+                    src = [int(x) for x in gen.scalar("index_online", ids)]
+                    blk = ionl[pos:pos + len(src)]
+                    pos += len(src)
+                    if len({b - a for a, b in zip(src, blk)}) > 1:
+                        out.append(("index_online of a source is altered "
+                                    "beyond an offset", "source %d" % i))
+                        break
+                    if prev_last is not None and blk and blk[0] <= prev_last:
+                        out.append(("index_online runs backwards between "
+                                    "sources (%d inputs)" % len(inputs),
+                                    "%s" % ionl))
+                        break
+                    prev_last = blk[-1] if blk else prev_last
             if "index" in ds and list(ds["index"][:]) != list(
                     range(1, len(got) + 1)):
                 out.append(("index is not 1..N", ""))
